@@ -60,12 +60,14 @@ def cumsum_evaluator(P, **kw):
 _GIVEN = object()
 
 
-def _run_cumsum(P, pos, to, default_shifts=None, axnames=("AX",), axis_arg=None, extra_dims=("t",), mw=None, da_pos=None, boundary=_GIVEN, fill_value=_GIVEN):
+def _run_cumsum(P, pos, to, default_shifts=None, axnames=("AX",), axis_arg=None, extra_dims=("t",), mw=None, da_pos=None, boundary=_GIVEN, fill_value=_GIVEN, per_axis_shifts=None):
     ev = cumsum_evaluator(P)
     fi = P.func("grid:Grid.cumsum")
 
     def make():
         g = make_grid(axnames, default_shifts=default_shifts)
+        for a_, sh in (per_axis_shifts or {}).items():  # an Axis has its own table of default shifts
+            g.attrs["axes"][Sym(a_)].attrs["_default_shifts"] = dict(g.attrs["axes"][Sym(a_)].attrs["_default_shifts"], **sh)
         dims = [Sym(d) for d in extra_dims] + [dimsym(a, (da_pos or {}).get(a, pos)) for a in axnames]
         coords = {d: (d,) for d in dims}  # an index coordinate per dimension ...
         coords[Sym("aux_coord")] = (dims[-1],)  # ... and a non-index one on the shifted dimension
@@ -236,6 +238,17 @@ def check(ctx):
                 ctx.ok("R09.3", inst, "omitting `to` uses the axis' default shift")
             else:
                 ctx.report("R09.3", fi, inst, f"with `to` omitted the result differs from to='{dflt}' (the axis' default shift for `{pos}`)")
+    inst = "to=None over two axes whose default shifts differ"
+    try:
+        shifts = {"AX": {"center": "left"}, "AY": {"center": "right"}}
+        a = _run_cumsum(P, "center", None, axnames=("AX", "AY"), axis_arg=[Sym("AX"), Sym("AY")], per_axis_shifts=shifts)
+        b = _run_cumsum(P, "center", {Sym("AX"): "left", Sym("AY"): "right"}, axnames=("AX", "AY"), axis_arg=[Sym("AX"), Sym("AY")], per_axis_shifts=shifts)
+        if sorted((o.kind, _eff_key(o.value)) for o in a) == sorted((o.kind, _eff_key(o.value)) for o in b) and all(o.kind == "return" for o in a):
+            ctx.ok("R09.3", inst, "each axis uses its own default shift")
+        else:
+            ctx.report("R09.3", fi, inst, "with `to` omitted the result differs from to={'AX': 'left', 'AY': 'right'}, the default shifts of the two axes: each axis has its own table")
+    except Unmodelled as e:
+        ctx.unknown("R09.3", inst, str(e))
     try:
         a = _run_cumsum(P, "center", {Sym("AX"): "left"})
         b = _run_cumsum(P, "center", "left")
